@@ -195,6 +195,26 @@ def rand_nullable_grammar(rng, nT=2, boolean=False):
     return {"S": 0, "nT": nT, "rules": rules}
 
 
+def rand_useless_grammar(rng, boolean=False):
+    """a dead nonterminal D (only D -> D c), generating nonterminals that are mentioned only next to D, an
+    unreachable generating nonterminal, possibly a non-generating start symbol"""
+    W = lambda: (True if boolean else fs(rng.choice(WEIGHTS[:7])))
+    nT = rng.randint(2, 3)
+    rules = [[W(), 3, [["N", 3], ["T", rng.randrange(nT)]]],          # D = 3: dead
+             [W(), 1, [["T", rng.randrange(nT)]]],                     # X = 1: generating
+             [W(), 2, [["T", rng.randrange(nT)], ["N", 1]]],           # Y = 2: generating
+             [W(), 4, [["T", rng.randrange(nT)]]]]                     # U = 4: generating, maybe unreachable
+    if rng.random() < 0.8:
+        rules.append([W(), 0, [["T", rng.randrange(nT)]]])            # start generating (sometimes not)
+    shapes = [[["N", 1], ["N", 3]], [["N", 3], ["N", 2]], [["N", 2], ["T", 0], ["N", 3]], [["N", 1], ["N", 2]], [["N", 0], ["N", 0]], [["N", 3]]]
+    for _ in range(rng.randint(1, 3)):
+        rules.append([W(), 0, [list(x) for x in rng.choice(shapes)]])
+    if rng.random() < 0.4:
+        rules.append([W(), 2, [["N", 3], ["N", 4]]])
+    rng.shuffle(rules)
+    return {"S": 0, "nT": nT, "rules": rules}
+
+
 def permute_rename(rng, g):
     """rule permutation + injective renaming of nonterminals (property-preserving)"""
     nts = nts_of(g)
